@@ -144,6 +144,20 @@ func c01GenRuleText(r *rng) string {
 		}
 
 		return "/banner"
+	case 8: // non-ASCII text in the shortcut (IDN written in Unicode form; windows that cut a UTF-8 sequence)
+		n := pick(r, mIDNNames)
+		switch r.n(5) {
+		case 0:
+			return "||" + n + "^"
+		case 1:
+			return "||" + n + pick(r, c01Stems)
+		case 2:
+			return pick(r, []string{"/bücher/", "/реклама", "ad_ü_banner", "/ünit", "bannerü"}) + pick(r, []string{"", "$script", "$image"})
+		case 3:
+			return "@@||" + n + "^" + pick(r, []string{"", "$important", "$script"})
+		default:
+			return pick(r, c01Short) + "$domain=" + n
+		}
 	case 6: // regex rules (with and without usable shortcut)
 		return pick(r, []string{"/banner[0-9]+/", "/ad[0-9]+|banner/", `/advert\.js/`, "/^https?:\\/\\/ads\\./", "/x/"})
 	default:
@@ -161,7 +175,10 @@ type c01Scenario struct {
 	coll    []string // texts of a text-hash collision pair present in the scenario
 }
 
-func c01BuildScenario(r *rng) *c01Scenario {
+func c01BuildScenario(r *rng) *c01Scenario { return c01BuildScenarioWith(r, c01GenRuleText) }
+
+// c01BuildScenarioWith: the scenario builder over any rule text generator.
+func c01BuildScenarioWith(r *rng, genText func(*rng) string) *c01Scenario {
 	nLists := 1 + r.n(4)
 	nRules := 1 + r.n(12)
 	if r.chance(1, 4) {
@@ -176,7 +193,7 @@ func c01BuildScenario(r *rng) *c01Scenario {
 		if len(all) > 0 && r.chance(1, 8) {
 			t = pick(r, all) // duplicate rule text (same or another list)
 		} else {
-			t = c01GenRuleText(r)
+			t = genText(r)
 		}
 		if _, err := rules.NewNetworkRule(t, 1); err != nil {
 			i--
@@ -217,25 +234,42 @@ func c01BuildScenario(r *rng) *c01Scenario {
 			bodies[l] = append(bodies[l], t)
 		}
 	}
+	// "any split into lists": lists that yield NO rule (empty, comments only, rejected lines, ignored cosmetic
+	// rules) between, before and after the lists that do
+	mb := make([]mBody, len(bodies))
+	for i, b := range bodies {
+		mb[i] = mBody{lines: b}
+	}
+	if r.chance(1, 2) {
+		mb = mInsertRuleLess(r, bodies, len(ids))
+	}
 	var lists []filterlist.RuleList
 	var note []string
-	for i, b := range bodies {
-		lists = append(lists, &filterlist.StringRuleList{ID: ids[i], RulesText: strings.Join(b, "\n") + "\n", IgnoreCosmetic: r.chance(1, 2)})
-		note = append(note, fmt.Sprintf("[%d] %s", ids[i], strings.Join(b, " ¶ ")))
+	for i, b := range mb {
+		text := strings.Join(b.lines, "\n") + "\n"
+		if b.lines == nil && r.chance(1, 2) {
+			text = ""
+		}
+		ign := r.chance(1, 2)
+		if b.ign != nil {
+			ign = *b.ign
+		}
+		lists = append(lists, &filterlist.StringRuleList{ID: ids[i], RulesText: text, IgnoreCosmetic: ign})
+		note = append(note, fmt.Sprintf("[%d] %s", ids[i], strings.Join(b.lines, " ¶ ")))
 	}
 	s, err := filterlist.NewRuleStorage(lists)
 	if err != nil {
 		panic(err)
 	}
 	sc := &c01Scenario{storage: s, engine: urlfilter.NewNetworkEngine(s), note: strings.Join(note, " ‖ "), coll: coll}
-	scan := s.NewRuleStorageScanner()
+	// the reference rule set is read list by list (one scanner per list), NOT through the storage scanner the
+	// engine is built from: what the storage scanner skips must show up as a difference
 	var items []string
-	for scan.Scan() {
-		f, idx := scan.Rule()
-		if nr, ok := f.(*rules.NetworkRule); ok {
+	for _, sr := range mScanLists(lists) {
+		if nr, ok := sr.rule.(*rules.NetworkRule); ok {
 			sc.nets = append(sc.nets, nr)
 			sc.texts = append(sc.texts, nr.RuleText)
-			items = append(items, wlist(fmt.Sprint(idx), wnetrule(nr)))
+			items = append(items, wlist(fmt.Sprint(sr.idx), wnetrule(nr)))
 		}
 	}
 	sc.rulesW = wlist(items...)
@@ -256,6 +290,9 @@ func c01URL(r *rng, sc *c01Scenario) string {
 		return s
 	}
 	host := pick(r, poolDomains)
+	if r.chance(1, 10) {
+		host = pick(r, mIDNNames)
+	}
 	switch r.n(8) {
 	case 0: // shortcut is the very end of the URL
 		if r.chance(1, 3) {
@@ -410,7 +447,8 @@ func c01HashGen(r *rng, n int, w *bufio.Writer) {
 		var s string
 		switch r.n(4) {
 		case 0:
-			s = pick(r, []string{"", "a", "ab", "/banner", "example.org", "\x00\xff\x80"})
+			s = pick(r, []string{"", "a", "ab", "/banner", "example.org", "\x00\xff\x80", "bücher.example", "ü", "büche", "\xbccher", "пример.рф", "日本語.jp",
+				"http://bücher.example/реклама?ü=1", "\u0130", "a\u212a", "\U0001F600.example"})
 		case 1:
 			b := make([]byte, r.n(40))
 			for i := range b {
